@@ -9,8 +9,9 @@ normpath-kernel). Property theorems only (helper lemmas: Lemmas/PyFns_Paths.lean
 import WzVerif.Gen.PyFns_Paths
 import WzVerif.Lemmas.PyFns_Paths
 import WzVerif.Lemmas.Paths
+import WzVerif.Lemmas.PyFnsEq_Middleware
 namespace Wz.Props.C14T
-open Wz Wz.Pre Wz.PyFnsPaths
+open Wz Wz.Pre Wz.PyFnsPaths Wz.Gen.PyFns_Paths Wz.PyFnsEq.Middleware
 
 /-- The translation maps `os.path.isabs` to the model of `posixpath.isabs`; that is what `os.path` is
 on the platform the generated file was produced on. -/
@@ -110,5 +111,79 @@ example : (Gen.PyFns_Paths.safe_join [] "/srv/root".toList
     ["a/../b".toList, "".toList, "c".toList]).toOption = some (some "/srv/root/b/c".toList) := by decide
 example : (Gen.PyFns_Paths.safe_join [] "/srv".toList ["a".toList, "b/../..".toList]).toOption
     = some none := by decide
+
+/-! ### `SharedDataMiddleware.__call__` up to the decision which file is served (middleware/shared_data.py;
+the translation stops at `guessed_type = …`; proofs in Lemmas/PyFnsEq_Middleware.lean) -/
+
+/-- **The `for search_path, loader in self.exports` loop** of `SharedDataMiddleware.__call__`, as
+translated from the current source, for **arbitrary** loaders (`call` is `loader(path)`), entered
+with `file_loader = None` and `real_filename` in any state (unbound or bound): it is left by `break`
+exactly when some export's loader answers a non-`None` file loader - for the first such export in
+the order of `self.exports`, with the `(real_filename, file_loader)` of that call (`firstLoader`) -
+and otherwise runs to its end with `file_loader` still `None`. It never returns from inside. -/
+theorem shared_data_loop_eq (pinfo : Str) (call : Ldr → Option Str → Option Str × Option Fld)
+    (allowed : Str → Bool) (path : Str) : ∀ (exports : List (Str × Ldr)) (rf : Option (Option Str)),
+    (∀ r, firstLoader call path exports = some r →
+      shared_data_select.loop1 pinfo call allowed path exports rf none = .brk (some r.1, some r.2)) ∧
+    (firstLoader call path exports = none →
+      ∃ rf', shared_data_select.loop1 pinfo call allowed path exports rf none = .fall (rf', none)) := by
+  apply PyFnsEq.Middleware.shared_data_loop_eq <;> assumption
+
+/-- **`SharedDataMiddleware.__call__` up to the decision which file is served**, as translated from
+the current source (the export loop, then `if file_loader is None or not
+self.is_allowed(real_filename): return self.app(…)`), for **arbitrary** loaders, every `is_allowed`
+predicate, every export list and every request path: the request goes to the wrapped application
+(`none`) when no export's loader answers a file loader, or when `is_allowed` rejects the
+`real_filename` of the first one that does; otherwise that `(real_filename, file_loader)` is served.
+The only error arm that can be reached is `is_allowed(None)` ("TypeError": a loader answered
+`(None, file_loader)` with a file loader - none of werkzeug's three loaders does, see
+`shared_data_select_eq`). -/
+theorem shared_data_select_general (path : Str) (call : Ldr → Option Str → Option Str × Option Fld)
+    (allowed : Str → Bool) (exports : List (Str × Ldr)) :
+    shared_data_select path call allowed exports () ()
+      = selected allowed (firstLoader call path exports) := by
+  apply PyFnsEq.Middleware.shared_data_select_general <;> assumption
+
+/-- `real_filename` is declared by its first assignment inside the loop, and read after the loop;
+the translation therefore has an "UnboundLocalError" arm. It is **unreachable for every loader**:
+`real_filename` is only read when `file_loader is not None`, and both are assigned together. -/
+theorem shared_data_select_not_unbound (path : Str)
+    (call : Ldr → Option Str → Option Str × Option Fld) (allowed : Str → Bool)
+    (exports : List (Str × Ldr)) :
+    shared_data_select path call allowed exports () () ≠ .error "UnboundLocalError" := by
+  apply PyFnsEq.Middleware.shared_data_select_not_unbound <;> assumption
+
+/-- **`SharedDataMiddleware.__call__` with werkzeug's own loaders**, as translated from the current
+source, for every file system (`isfile`), every `is_allowed` predicate, every export list as
+`__init__` builds it (directory / single-file / package exports, in the order of `self.exports`) and
+every request path: the function **never raises** - no `UnboundLocalError` and no `TypeError` arm is
+reachable, because these loaders answer `(None, None)` or `(basename, opener)` - and it decides
+exactly as C14's model: the first export whose loader finds a file (`Paths.findExport`), served iff
+`is_allowed(real_filename)`. The answer is `(real_filename, path that is opened)`, `none` = the
+wrapped application is called. No input was found on which code and model differ. -/
+theorem shared_data_select_eq (isfile allowed : Str → Bool) (exports : List (Str × Paths.Export))
+    (path : Str) :
+    shared_data_select path
+        (fun ex p => match Paths.loaderOf isfile ex p with
+          | some (name, f) => (some name, some f)
+          | none => (none, none))
+        allowed exports () ()
+      = .ok ((Paths.findExport isfile exports path).bind fun (name, f) =>
+          if allowed name then some (name, f) else none) := by
+  apply PyFnsEq.Middleware.shared_data_select_eq <;> assumption
+
+/-- **The file that is served**: the path opened by the file loader the translated `__call__`
+selects is exactly C14's `Paths.sharedData` (the function the C14 containment theorems are about),
+for every file system, `is_allowed`, export list and request path. -/
+theorem shared_data_select_served (isfile allowed : Str → Bool) (exports : List (Str × Paths.Export))
+    (path : Str) :
+    (shared_data_select path
+        (fun ex p => match Paths.loaderOf isfile ex p with
+          | some (name, f) => (some name, some f)
+          | none => (none, none))
+        allowed exports () ()).map (Option.map (·.2))
+      = .ok (Paths.sharedData isfile allowed exports path) := by
+  apply PyFnsEq.Middleware.shared_data_select_served <;> assumption
+
 
 end Wz.Props.C14T
